@@ -384,11 +384,77 @@ func ruleR124(c *Ctx) {
 	n := 0
 	for _, pkg := range evalPkgs(c) {
 		info := pkg.TypesInfo
+		// functions that spawn: directly, or by calling a function of the package that does (two levels)
+		spawner := map[*types.Func]bool{}
+		declOf := map[*types.Func]*ast.FuncDecl{}
+		for _, f := range pkg.Syntax {
+			for _, d := range f.Decls {
+				if fd, ok := d.(*ast.FuncDecl); ok && fd.Body != nil {
+					if obj, ok := info.Defs[fd.Name].(*types.Func); ok {
+						declOf[obj] = fd
+						if containsNode(fd.Body, func(x ast.Node) bool { _, ok := x.(*ast.GoStmt); return ok }) {
+							spawner[obj] = true
+						}
+					}
+				}
+			}
+		}
+		ownsProtocol := map[*types.Func]bool{}
+		for obj, fd := range declOf {
+			ast.Inspect(fd.Body, func(x ast.Node) bool {
+				if call, ok := x.(*ast.CallExpr); ok {
+					if cal := Callee(info, call); cal != nil && cal.Pkg() != nil && cal.Pkg().Path() == iterPath && cal.Name() == "CopyProducer" {
+						ownsProtocol[obj] = true
+					}
+				}
+				return true
+			})
+		}
+		// a function that owns the protocol settles its spawns itself: its callers are no spawn points
+		isSpawnCall := func(cal *types.Func) bool { return cal != nil && spawner[cal.Origin()] && !ownsProtocol[cal.Origin()] }
+		for round := 0; round < 2; round++ {
+			for obj, fd := range declOf {
+				if spawner[obj] {
+					continue
+				}
+				ast.Inspect(fd.Body, func(x ast.Node) bool {
+					if call, ok := x.(*ast.CallExpr); ok {
+						if isSpawnCall(Callee(info, call)) {
+							spawner[obj] = true
+						}
+					}
+					return true
+				})
+			}
+		}
+		callersOf := map[*types.Func][]*types.Func{}
+		for obj, fd := range declOf {
+			ast.Inspect(fd.Body, func(x ast.Node) bool {
+				if call, ok := x.(*ast.CallExpr); ok {
+					if cal := Callee(info, call); cal != nil {
+						if cal.Pkg() != nil && cal.Pkg().Path() == iterPath && cal.Name() == "CopyProducer" {
+							ownsProtocol[obj] = true
+						}
+						if declOf[cal.Origin()] != nil {
+							callersOf[cal.Origin()] = append(callersOf[cal.Origin()], obj)
+						}
+					}
+				}
+				return true
+			})
+		}
 		forEachFuncBody([]*packages.Package{pkg}, func(_ *packages.Package, fn ast.Node, body *ast.BlockStmt) {
-			var spawns []*ast.GoStmt
+			// spawn points: go statements and calls of spawning functions of the package
+			var spawns []ast.Node
 			inspectNoLit(body, func(x ast.Node) bool {
-				if gs, ok := x.(*ast.GoStmt); ok {
-					spawns = append(spawns, gs)
+				switch t := x.(type) {
+				case *ast.GoStmt:
+					spawns = append(spawns, t)
+					return false
+				case *ast.CallExpr:
+					if isSpawnCall(Callee(info, t)) {
+						spawns = append(spawns, t)
+					}
 				}
 				return true
 			})
@@ -413,12 +479,33 @@ func ruleR124(c *Ctx) {
 			})
 			g := c.CFG(fn)
 			for i, gs := range spawns {
-				n++
 				key := fmt.Sprintf("%s#go[%d]:fed", c.FuncName(fn)+litSuffix(c, fn), i+1)
 				if runObj == nil {
+					// a helper that only spawns (or forwards to one): fine if every caller in the package is itself a
+					// spawning function (the obligation is then checked at the call in the function that owns the protocol)
+					if fd, ok := fn.(*ast.FuncDecl); ok {
+						if obj, ok := info.Defs[fd.Name].(*types.Func); ok && len(callersOf[obj]) > 0 {
+							allOwned := true
+							for _, caller := range callersOf[obj] {
+								if !ownsProtocol[caller] && len(callersOf[caller]) == 0 {
+									allOwned = false
+								}
+								if !ownsProtocol[caller] && !spawner[caller] {
+									allOwned = false
+								}
+							}
+							if allOwned {
+								n++
+								c.OK(key, gs.Pos(), "spawn helper: the obligation to feed the consumers is checked at its call sites in the function that owns the CopyProducer protocol")
+								continue
+							}
+						}
+					}
+					n++
 					c.Violation(key, gs.Pos(), "a goroutine is started in evaluation code by a function that does not own a CopyProducer protocol: its termination is matched by no rule of the checker")
 					continue
 				}
+				n++
 				isRun := func(x ast.Node) bool {
 					return containsNode(x, func(y ast.Node) bool {
 						call, ok := y.(*ast.CallExpr)
@@ -429,12 +516,18 @@ func ruleR124(c *Ctx) {
 						return ok && info.ObjectOf(id) == runObj
 					})
 				}
-				blk, idx, ok := g.Pos(gs)
+				// the CFG node that contains the spawn point
+				var anchor ast.Node = gs
+				blk, idx, ok := g.Pos(anchor)
 				if !ok {
 					c.OK(key, gs.Pos(), "unreachable")
 					continue
 				}
-				escapes, trail := g.PathAvoiding(blk.Nodes[idx], nil, isRun)
+				node := blk.Nodes[idx]
+				if isRun(node) && node != anchor {
+					// the spawning call and the feeding call in one statement: the spawn comes first if it is an argument / earlier operand
+				}
+				escapes, trail := g.PathAvoiding(node, nil, isRun)
 				if escapes {
 					where := ""
 					if len(trail) > 0 {
